@@ -2,7 +2,7 @@
 import random, itertools
 import numpy as np
 from . import common
-from .spectrum_common import enc, observe, rand_spectrum, rand_shape, rand_labels, mutate
+from .spectrum_common import enc, observe, rand_spectrum, rand_shape, rand_labels, mutate, relayout
 
 PROP = 'C08'
 
@@ -41,6 +41,8 @@ def records(ctx):
         sh = rand_shape(rng, ndim, 1, hi)
         folded = (k // 6) % 3 == 1
         fs = rand_spectrum(rng, sh, folded=folded, labels=rand_labels(rng, ndim), mask_mode=['none', 'corners', 'random', 'single'][(k // 3) % 4])
+        if k % 5 == 4:      # non-contiguous memory layout, same abstract spectrum
+            fs = relayout(fs, rot=(k // 5) % 3)
         ns = [rng.randint(1, s - 1) for s in sh]
         kind = rng.random()
         if kind < 0.1:      # upward projection must be refused
